@@ -107,9 +107,21 @@ def monitor(case, out):
             if (o, x) in expired_at and x in ids:
                 xi = ids.index(x)
                 if last_step_of[xi] < expired_at[(o, x)]:
+                    nv = views.get((o, x))
+                    fresh = delivered is not None and k in ("deliver", "dup") and delivered.get("origin", -1) > expired_at[(o, x)]
+                    if nv is not None and nv["left"] and fresh:
+                        return {"step": i, "why": "%s had forgotten the LEFT node %s (expired at step %d) and re-learned it at step %d from a peer although %s has not taken a step since"
+                                                  % (ids[o], x, expired_at[(o, x)], i, x), "sig": "relearn-left"}
                     return {"step": i, "why": "%s had forgotten %s (expired at step %d) and re-learned it at step %d although %s has not taken a step since"
                                               % (ids[o], x, expired_at[(o, x)], i, x), "sig": "F2-zombie"}
-        inflight += ob["sent"]
+        # causal origin of the new packets: a delta reply inherits the origin of the digest it answers
+        for p in ob["sent"]:
+            q = dict(p)
+            if p["bytes"].startswith("02") and delivered is not None:
+                q["origin"] = delivered.get("origin", i)
+            else:
+                q["origin"] = i
+            inflight.append(q)
     return None
 
 
